@@ -27,8 +27,8 @@ enum { K_LETTERS, K_PRIV, K_SPOOF, K_ROUTE, K_VACK, K_REFUSED, K_LOGINS, K_TUNW,
 
 /* ---------------------------------------------------------------- alphabet */
 enum { L_V, L_VBAD, L_LOGIN, L_I, L_S, L_O, L_N, L_R, L_P, L_DATA, L_RAWLOGIN, L_RAWDATA, L_RAWPING, L_Z, L_TUN, L_TIME };
-enum { HK_CUR, HK_PREV, HK_OTHER, HK_PLUS1, HK_WRONG, HK_SHORT, HK_LASTONLY, HK_FIRSTONLY, HK_ALLBUTLAST, HK_ALLBUTFIRST, HK_WRONG17, HK_WRONG18 };
-enum { RK_PLUS1, RK_PLAIN, RK_WRONG, RK_LASTONLY, RK_ALLBUTLAST };
+enum { HK_CUR, HK_PREV, HK_OTHER, HK_PLUS1, HK_WRONG, HK_SHORT, HK_LASTONLY, HK_FIRSTONLY, HK_ALLBUTLAST, HK_ALLBUTFIRST, HK_WRONG17, HK_WRONG18, HK_TONUL };
+enum { RK_PLUS1, RK_PLAIN, RK_WRONG, RK_LASTONLY, RK_ALLBUTLAST, RK_TONUL };
 enum { SRC_A, SRC_B, SRC_C6, NSRC };
 typedef struct letter { int kind, src, u, arg; char name[48]; } letter;
 static letter LT[200]; static int nlt;
@@ -42,6 +42,9 @@ static const char *SRCN[NSRC] = { "A", "B", "C6" };
  * deviation (e.g. a response that ignores part of the challenge makes an old response valid again). */
 void s_login_calculate(char *buf, int buflen, const char *pass, int seed);
 static void impl_login(const unsigned char *pw, uint32_t ch, uint8_t *out) { s_login_calculate((char *)out, 16, (const char *)pw, (int)ch); }
+/* first forced challenge: chosen (by search from 0x2b5d3f17 upwards, at start-up) so that the expected response to it starts with a
+ * zero byte and the expected raw-login response (challenge + 1) contains one: a comparison that stops at a zero byte shows */
+static uint32_t CH_BASE = 0x2b5d3f17u;
 
 static void addl(int kind, int src, int u, int arg, const char *fmt, ...)
 {
@@ -56,8 +59,8 @@ static uint32_t tun_of_slot[16], srv_tun_ip = 0x0A000001u;    /* read from the s
 
 static void mk_alphabet(void)
 {
-	static const char *HKN[] = { "cur", "prev", "other", "cur+1", "wrong", "short", "only-last-byte-right", "only-first-byte-right", "all-but-last-byte-right", "all-but-first-byte-right", "wrong,17-bytes", "wrong,18-bytes" };
-	static const char *RKN[] = { "cur+1", "cur", "wrong", "only-last-byte-right", "all-but-last-byte-right" };
+	static const char *HKN[] = { "cur", "prev", "other", "cur+1", "wrong", "short", "only-last-byte-right", "only-first-byte-right", "all-but-last-byte-right", "all-but-first-byte-right", "wrong,17-bytes", "wrong,18-bytes", "right-up-to-its-first-zero-byte" };
+	static const char *RKN[] = { "cur+1", "cur", "wrong", "only-last-byte-right", "all-but-last-byte-right", "right-up-to-its-first-zero-byte" };
 	for (int s = 0; s < 2; s++) addl(L_V, s, -1, 0, "V(%s)", SRCN[s]);
 	if (is03) addl(L_VBAD, SRC_A, -1, 0, "Vbad(A)");
 	for (int s = 0; s < 2; s++) for (int u = 0; u < 2; u++) {
@@ -66,6 +69,8 @@ static void mk_alphabet(void)
 		if (is04) addl(L_LOGIN, s, u, HK_WRONG, "L(%s,u%d,wrong)", SRCN[s], u);
 		/* responses that agree with the right one in some byte positions only */
 		if (is03) for (int hk = HK_LASTONLY; hk <= HK_ALLBUTFIRST; hk++) addl(L_LOGIN, s, u, hk, "L(%s,u%d,%s)", SRCN[s], u, HKN[hk]);
+		/* ... or only up to the first zero byte of the expected response (the forced first challenge yields one, see CH_BASE) */
+		if (is03 && s == 0) addl(L_LOGIN, s, u, HK_TONUL, "L(%s,u%d,%s)", SRCN[s], u, HKN[HK_TONUL]);
 	}
 	if (is03) {
 		addl(L_LOGIN, SRC_A, 5, HK_WRONG, "L(A,u5,wrong)");
@@ -89,6 +94,7 @@ static void mk_alphabet(void)
 	for (int s = 0; s < 2; s++) for (int u = 0; u < 2; u++) {
 		for (int rk = 0; rk < (is03 ? 3 : 2); rk++) addl(L_RAWLOGIN, s, u, rk == 1 && is04 ? RK_WRONG : rk, "rawLOGIN(%s,u%d,%s)", SRCN[s], u, RKN[rk == 1 && is04 ? RK_WRONG : rk]);
 		if (is03) for (int rk = RK_LASTONLY; rk <= RK_ALLBUTLAST; rk++) addl(L_RAWLOGIN, s, u, rk, "rawLOGIN(%s,u%d,%s)", SRCN[s], u, RKN[rk]);
+		if (is03 && s == 0) addl(L_RAWLOGIN, s, u, RK_TONUL, "rawLOGIN(%s,u%d,%s)", SRCN[s], u, RKN[RK_TONUL]);
 		addl(L_RAWDATA, s, u, -1, "rawDATA(%s,u%d)", SRCN[s], u);
 		addl(L_RAWPING, s, u, 0, "rawPING(%s,u%d)", SRCN[s], u);
 	}
@@ -199,6 +205,8 @@ static int apply(int li)
 	if (L->kind == L_LOGIN && L->arg == HK_PREV && !(u < NS && M.alloc[u] && M.hasprev[u])) return 1;
 	if (L->kind == L_LOGIN && L->arg == HK_OTHER && !(u < NS && M.alloc[u] && M.alloc[1 - u])) return 1;
 	if (L->kind == L_RAWLOGIN && L->arg != RK_WRONG && !(u < NS && M.alloc[u])) return 1;
+	if (L->kind == L_LOGIN && L->arg == HK_TONUL) { uint8_t r[16]; impl_login(pw32, M.cur[u], r); if (!memchr(r, 0, 15)) return 1; }
+	if (L->kind == L_RAWLOGIN && L->arg == RK_TONUL) { uint8_t r[16]; impl_login(pw32, M.cur[u] + 1, r); if (!memchr(r, 0, 15)) return 1; }
 
 	/* C04 (a): is this a request naming u from an address other than the one bound to u? */
 	int spoof = 0;
@@ -219,7 +227,7 @@ static int apply(int li)
 		/* the challenges the server hands out are forced: each differs from the one before it in one byte only (top byte, low bit,
 		 * second, third byte, ...), so that a response which does not depend on all of the challenge shows up as an accepted replay */
 		static const uint32_t FLIP[6] = { 0x41000000u, 0x00000001u, 0x00000100u, 0x00010000u, 0x3e000000u, 0x000000fau };
-		uint32_t ch = 0x2b5d3f17u;
+		uint32_t ch = CH_BASE;
 		for (int i = 0; i < M.nv; i++) ch ^= FLIP[i % 6];
 		M.nv++;
 		W.proc[0].nrand_forced = 1; W.proc[0].rand_forced[0] = (int)(ch & 0x7fffffffu); W.proc[0].rand_forced_pos = 0;
@@ -240,6 +248,7 @@ static int apply(int li)
 		case HK_FIRSTONLY: { uint8_t r[16]; impl_login(pw32, ch, r); memset(h, 0x5a, 16); h[0] = r[0]; if (h[15] == r[15]) h[15] ^= 1; break; }
 		case HK_ALLBUTLAST: impl_login(pw32, ch, h); h[15] ^= 0x01; break;
 		case HK_ALLBUTFIRST: impl_login(pw32, ch, h); h[0] ^= 0x80; break;
+		case HK_TONUL: { impl_login(pw32, ch, h); int j = (int)((uint8_t *)memchr(h, 0, 15) - h); for (int k = j + 1; k < 16; k++) h[k] ^= 0x5a; break; }
 		default: memset(h, 0x5a, 16); break;
 		}
 		plen = tm_login(pkt, id, QT, u, h, L->arg == HK_SHORT ? 12 : L->arg == HK_WRONG17 ? 14 : L->arg == HK_WRONG18 ? 15 : 16, cmc, DOM);
@@ -272,6 +281,7 @@ static int apply(int li)
 		if (L->arg == RK_PLUS1) impl_login(pw32, ch + 1, h); else if (L->arg == RK_PLAIN) impl_login(pw32, ch, h);
 		else if (L->arg == RK_LASTONLY) { uint8_t r[16]; impl_login(pw32, ch + 1, r); memset(h, 0xa5, 16); h[15] = r[15]; }
 		else if (L->arg == RK_ALLBUTLAST) { impl_login(pw32, ch + 1, h); h[15] ^= 0x10; }
+		else if (L->arg == RK_TONUL) { impl_login(pw32, ch + 1, h); int j = (int)((uint8_t *)memchr(h, 0, 15) - h); for (int k = j + 1; k < 16; k++) h[k] ^= 0x5a; }
 		else memset(h, 0xa5, 16);
 		plen = tm_raw(pkt, 0x10, u, h, 16);
 		break;
@@ -598,6 +608,7 @@ int main(int argc, char **argv)
 	}
 	is03 = !strcmp(PROP, "C03"); is04 = !strcmp(PROP, "C04"); thorough = a.thorough;
 	memset(pw32, 0, sizeof pw32); strcpy((char *)pw32, PW);
+	for (uint32_t c = 0x2b5d3f17u; c < 0x7ff00000u; c++) { uint8_t r[16], r1[16]; impl_login(pw32, c, r); if (r[0]) continue; impl_login(pw32, c + 1, r1); if (memchr(r1, 0, 15)) { CH_BASE = c; break; } }
 	vw_mkaddr(&SRC[SRC_A], &SRCLEN[SRC_A], "198.51.100.7", 4000);
 	vw_mkaddr(&SRC[SRC_B], &SRCLEN[SRC_B], "198.51.100.8", 4001);
 	vw_mkaddr6(&SRC[SRC_C6], &SRCLEN[SRC_C6], "2001:db8::99", 4002);
